@@ -14,6 +14,7 @@ ReducedShapes == {sh \in Shapes : (sh["a"] = "absent" /\ sh["b"] \in {"absent", 
                                     \/ (sh["b"] = "absent")}
 
 KeySeq == <<"a", "b">>
+Pseudo == <<"size", "first", "last", "nosuch">>
 SubSeq3 == <<"x", "size", "y">>
 ASSUME {KeySeq[i] : i \in 1..Len(KeySeq)} = Keys
 
@@ -72,6 +73,8 @@ ObsTry(f) ==
 Obs(f) == [t |-> ObsTry(f),
            r |-> [n \in 1..Len(KeySeq) |-> IF KeySeq[n] \in ChainRoots(f) THEN 1 ELSE 0],
            i |-> [n \in 1..Len(KeySeq) |-> Enc(ChainGetIndex(f, KeySeq[n]))],
+           \* root names no layer defines (the pseudo-keys of find.rs among them): optional and failing form, both "nothing"
+           u |-> [n \in 1..(2 * Len(Pseudo)) |-> Enc(ChainTryGet(f, <<Pseudo[(n + 1) \div 2]>>))],
            g |-> IF RegsOwner(f) = 1 THEN BaseLen ELSE RegsOwner(f)]
 
 EmitOp(s, o) ==
